@@ -63,8 +63,11 @@ CHECKS = {
              "in chain order, by recursion through its own contract) and calculate_file_length (while-loop invariant over a chain of any "
              "length), and list_files itself: the 72-slot directory loop (invariant: position, number of files so far; per active slot "
              "exactly one file whose type comes from the entry, whose data are read_data's result of the recorded length, whose "
-             "addresses come from the stream's preamble / postamble bytes), callees through their contracts.  Name bytes are read through "
-             "read_sequence's contract; their normalisation (strip, case) is covered by the BOUNDED part only: enumerated data lengths x "
+             "addresses come from the stream's preamble / postamble bytes), callees through their contracts.  Writer -> reader bridge: the "
+             "image add_file leaves satisfies those pre-conditions for the new entry (entry fields, FAT links, stream = header || data || "
+             "trailer in chain order) and leaves the entries, FAT links and granules of every file already stored untouched.  Name bytes are "
+             "read through read_sequence's contract; their normalisation (strip, case) and the induction over the number of files are "
+             "covered by the BOUNDED part only: enumerated data lengths x "
              "fill orders x file kinds x pre-existing files with symbolic contents, tool reader and independent reader "
              "(specs/diskbasic).", "DESIGN 4 C07, 12", TECHB),
     "C08": C("other", "Unbounded, function by function with the image as a z3 array: seek_granule geometry, length identity, write_bytes_to_buffer "
